@@ -83,7 +83,7 @@ func TestVerifC16Endpoint(t *testing.T) {
 	r.Rule("every error value of nesting depth <= D built from 9 leaves (SMTP-annotated 4xx/5xx incl. non-ASCII text and no enhanced code, plain, net.OpError, net.DNSError not-found/timeout, context deadline) and 5 wrappers (WithTemporary true/false, WithFields, fmt.Errorf %w, SMTPError{Err, SMTPCode, SMTPEnchCode}) through Endpoint.wrapErr with and without SMTPUTF8; oracle: class(code) = class(enhanced code as written on the wire) in {4,5}; marker temporary => 4yz, permanent => 5yz for un-annotated errors; generic text and no internal detail for un-annotated errors; ASCII-only text without SMTPUTF8. Non-trivial: all (distinct values)")
 	depth := 3
 	if vx.Thorough() {
-		depth = 4
+		depth = 5
 	}
 	r.Bound("depth", depth)
 	endp := &Endpoint{name: "verif", Log: log.Logger{Out: log.NopOutput{}}}
@@ -91,7 +91,7 @@ func TestVerifC16Endpoint(t *testing.T) {
 	if rp := r.Replay(); rp != nil {
 		want = &c16Case{}
 		json.Unmarshal(rp, want)
-		depth = 4
+		depth = 5
 	} else if r.Replaying() {
 		return
 	}
